@@ -86,6 +86,26 @@ def check_case(ctx, case):
     if coms != grouped.get("comments", []):
         ctx.violation("comments_not_gathered", case, {"flat": coms, "grouped": grouped.get("comments", "<absent>")})
     ctx.obs["comment_texts_compared"] += len(coms)
+    # the same two calls on ONE parser object, in both orders, and through the file entry point: still the flat list / its regrouping
+    n = ctx.obs["results_pairs"] = ctx.obs["results_pairs"] + 1
+    if n % 4 == 0:
+        from vf.run import parse_via_file, run_history
+        for order in ((False, True), (True, False)):
+            h = run_history(ddl, ctor, [dict(output_mode=mode, **({"group_by_type": True} if gbt else {})) for gbt in order])
+            ctx.evaluated(2)
+            ctx.obs["same_object_histories"] += 1
+            for gbt, r in zip(order, h):
+                want = g if gbt else f
+                if r[0] != "ok" or r[1] != want[1]:
+                    ctx.violation("result_depends_on_earlier_call_on_same_object", case, {"call": "run(group_by_type=%s)" % gbt, "order": list(order),
+                                                                                           "observed": short(r, 200), "fresh_object": short(want[1], 200)})
+                    break
+        if "\r" not in ddl:
+            vf = parse_via_file(ddl, ctor, output_mode=mode, group_by_type=True)
+            ctx.evaluated()
+            ctx.obs["via_parse_from_file"] += 1
+            if vf[0] != "ok" or vf[1] != grouped:
+                ctx.violation("parse_from_file_not_grouped_like_api", case, {"observed": short(vf, 200), "api": short(grouped, 200)})
 
 
 def run_shard(ctx):
